@@ -38,7 +38,8 @@ ASSUMPTIONS = [
 REPORT_COUNTERS = ["signature_sets", "calls", "unique_applicable_ran", "params_identity_checked", "defaults_identity_checked",
                    "results_identity_checked", "exceptions_identity_checked", "none_applicable_checked", "self_checked",
                    "entry_shapes", "zero_positional_calls", "kw_with_omitted_optional", "nested_delegations_checked",
-                   "sets_with_never_true_decoy", "cases_with_always_equal_arguments"]
+                   "sets_with_never_true_decoy", "cases_with_always_equal_arguments",
+                   "keyword_for_positional_probes", "keyword_for_positional_probes_ran"]
 
 TYPES = ["int", "str", "float"]
 
@@ -329,6 +330,35 @@ def check_case(spec, res):
                         res.violation("inapplicable-method-ran", [npos_given == 0], spec,
                                       observed={"call_shape": shape, "entered": [e[0] for e in vf.entries]},
                                       acceptable="no method body runs", finding=None)
+    # Call shapes outside the documented rules (a positional parameter given by keyword while an earlier optional one
+    # is omitted, names differing elsewhere) may be rejected - but whenever a method *runs*, every keyword the caller
+    # supplied must have arrived under its name: "never a silently dropped keyword"
+    target = holder.f if holder is not None else o
+    pnames = sorted({(i, p["n"]) for m in spec["methods"] for i, p in enumerate(m["pos"]) if i >= 1 and not p.get("po")})
+    for i, n_ in pnames:
+        for j in range(0, i + 1):
+            tys = [rng.choice(TYPES) for _ in range(j)]
+            cands = [m for m in spec["methods"] if len(m["pos"]) > i and m["pos"][i]["n"] == n_ and not m.get("decoy")]
+            if cands:
+                m0 = rng.choice(cands)
+                tys = [m0["pos"][q]["t"] for q in range(j)]
+                kty = m0["pos"][i]["t"]
+            else:
+                kty = rng.choice(TYPES)
+            pargs = [mk[t]() for t in tys]
+            kv = mk[kty]()
+            vf.clear()
+            made.clear()
+            out = outcome(lambda: target(*pargs, **{n_: kv}), vf, names)
+            res.count("keyword_for_positional_probes")
+            if out[0] == "ran" or vf.entries:
+                res.count("keyword_for_positional_probes_ran")
+                e0 = vf.entries[0] if vf.entries else None
+                if e0 is None or e0[1].get(n_) is not kv:
+                    res.violation("keyword-silently-dropped", [j, i], spec,
+                                  observed={"positionals_given": j, "keyword": n_, "entered": e0[0] if e0 else None,
+                                            "received": repr(e0[1].get(n_))[:40] if e0 else None},
+                                  acceptable="an error, or the method receives the supplied object under that name")
     _delegation_passthrough(spec, res, env, mk, Box, made)
     forget(files)
 
